@@ -715,6 +715,11 @@ def explore(ctx, tier, search=False):
     ctx.correspond("DAP4 proxy: stored slice and issued request", cases)
     # (d') DAP4 end to end against the reference DAP4 server, without and with URL pre-constraint
     explore_dap4_e2e(ctx, quick)
+    # (d'') end to end on VALUES: the composed model (Subset ∘ gather ∘ DDS ∘ XDR) vs the real pipeline, numpy oracle
+    import sys
+    from props import c02_e2e
+
+    c02_e2e.explore_e2e(ctx, sys.modules[__name__], quick)
     # (e) server-side projection tokens (name/hyperslab split, error classes)
     from pydap.parsers import parse_projection
 
@@ -776,6 +781,11 @@ def replay(payload):
         Runner(ctx).array_case(shape, pre, eval(c["index"], g), "replay")
     elif c["kind"] == "grid":
         Runner(ctx).grid_case(shape, pre, eval(c["index"], g), c["output_grid"], "replay")
+    elif c["kind"] in ("e2e-array", "e2e-grid"):
+        import sys
+        from props import c02_e2e
+
+        c02_e2e.replay_case(ctx, sys.modules[__name__], c)
     elif c["kind"] == "dap4-open":
         Dap4E2E(ctx).client(shape, pre, c["dtype"], c["little"], c["anon"])
     elif c["kind"] == "dap4-e2e":
